@@ -485,4 +485,14 @@ theorem parse_then_bind_ok_iff (ll : LL) (h : WF ll) (as : List Obj) :
   · rintro ⟨ll', b, hl, hb⟩; cases hl; exact ⟨b, hb⟩
   · rintro ⟨b, hb⟩; exact ⟨ll, b, rfl, hb⟩
 
+example : docLL ["list", "&optional", "n"] = .ok { req := ["list"], opt := [{ name := "n" }] } ∧
+    docConsistent ["list", "&optional", "n"] 1 (some 2) = true ∧
+    docConsistent ["list", "&optional", "n"] 1 (some 3) = false := by decide
+
+example : ∃ b, bind { req := ["a"], hasKey := true, keys := [{ name := "k1" }, { name := "k2" }] }
+      [.int 1, .kw "k2", .int 2, .kw "k1", .int 3] = .ok b ∧
+    [Obj.int 1, .kw "k2", .int 2, .kw "k1", .int 3].drop 1 = flat [("k2", .int 2), ("k1", .int 3)] ∧
+    (([("k2", Obj.int 2), ("k1", .int 3)] : List (String × Obj)).map (·.1)).Nodup :=
+  ⟨[("a", .int 1), ("k1", .int 3), ("k2", .int 2)], by decide, by decide, by decide⟩
+
 end SlipVerif.Theorems.C04
